@@ -3,6 +3,7 @@ import KdVerif.Props.C01
 import KdVerif.Proofs.Trunc
 import KdVerif.Proofs.Final
 import KdVerif.Proofs.EndToEnd
+import KdVerif.Proofs.PyIRRdKd
 /-
   C06 — truncated dumps: parsing terminates and reports a prefix of the full result.
 
@@ -346,5 +347,39 @@ example :
       ["3 Process exit name: y", "5 Process exit name: z"] ∧
     (EndToEnd.formattedTraces EndToEnd.exEnv obj { process := false } EndToEnd.noPlist (file.take 560)).1 = ["3 Process exit name: y"] := by
   decide +kernel
+
+/-! ### Translation tie: the loops whose termination and prefix behaviour C06 is about
+
+  (`tools/gen_pyir_rd.py` → `Gen/PyIRRd.lean`, IR and interpreter `Model/PyIRRd`; see `Props/C02`.)  The interpreter gives
+  every `while` loop `unread bytes + 2` iterations; `parse_is_interpreted_source` + `never_hangs` say that the translated
+  loops never use them up. -/
+
+/-- **The translated source is the program the refinement lemmas were proved for.** -/
+theorem source_is_expected_ir : Gen.PyIRRd.prog = PyIRRd.Expected.prog ∧ Gen.PyIRRd.notes = [] := by decide
+
+/-- **The subject of every C06 theorem is the interpreted source**: `parse plist fromKdBuf prior data` — for EVERY byte
+    string, truncated or not — is the translated `parse` / `parse_v2` / `parse_v3` (to the end of its chunk loop) /
+    `seek_until` / `set_thread_map` run by the interpreter, followed by the hand-modelled tail of `parse_v3`. -/
+theorem parse_is_interpreted_source (plist : Bytes → Option PView) (prior : PState) (data : Bytes) :
+    parse plist fromKdBuf prior data = PyIRRd.parseVia Gen.PyIRRd.prog plist fromKdBuf prior data :=
+  PyIRRd.parse_eq_parseVia_gen source_is_expected_ir plist prior data
+
+/-- … hence the interpreted source terminates on every byte string (no loop runs out of its fuel), -/
+theorem interpreted_source_never_hangs (plist : Bytes → Option PView) (prior : PState) (data : Bytes) :
+    (PyIRRd.parseVia Gen.PyIRRd.prog plist fromKdBuf prior data).err ≠ some .hang := by
+  rw [← parse_is_interpreted_source]; exact never_hangs plist prior data
+
+/-- … and its events for a cut dump are a prefix of its events for the whole dump. -/
+theorem interpreted_source_truncation_prefix (plist : Bytes → Option PView) (prior prior' : PState) (f : Bytes) (k : Nat) :
+    (PyIRRd.parseVia Gen.PyIRRd.prog plist fromKdBuf prior' (f.take k)).events <+:
+      (PyIRRd.parseVia Gen.PyIRRd.prog plist fromKdBuf prior f).events := by
+  rw [← parse_is_interpreted_source, ← parse_is_interpreted_source]; exact truncation_prefix plist prior prior' f k
+
+/-- **`seek_until`, interpreted, ends in `EOFError` at end of file** (the pre-fix loop did not: `seekUntil_fuel_hang_old`). -/
+theorem seek_until_ir_eof (tag : Bytes) (ht : tag ≠ []) (r : Reader) (hr : r.rest = []) :
+    ∃ r1, PyIRRd.runSeek Gen.PyIRRd.prog.seekUntil tag r = (.error .eof, r1) := by
+  rw [source_is_expected_ir.1]
+  show ∃ r1, PyIRRd.runSeek PyIRRd.Expected.seekUntil tag r = (.error .eof, r1)
+  rw [PyIRRd.runSeek_expected]; exact seekUntil_nil_fails tag ht r hr
 
 end KdVerif.C06
